@@ -83,7 +83,15 @@ func newAsmGens(full bool) asmGens {
 		syms = append(syms, rapid.StringMatching(`[a-zA-Z][a-zA-Z0-9_]{0,8}`), rapid.SampledFrom([]string{"LOAD", "Foo", "F", "HALT"}))
 		sels = append(sels, rapid.StringMatching(`[a-zA-Z0-9]{1,5}`), rapid.SampledFrom([]string{"1A", "A1", "4294967296", "99999999999"}))
 	}
-	g.sym = rapid.OneOf(syms...)
+	short := rapid.OneOf(syms...)
+	g.sym = rapid.Custom(func(t *rapid.T) string {
+		if chancePct(t, 5, "longsym") {
+			// up to the 255 bytes an argument can have
+			n := []int{40, 64, 127, 128, 200, 254, 255}[uniformN(t, 7, "longsymlen")]
+			return (short.Draw(t, "longsymhead") + strings.Repeat(string(rune('a'+uniformN(t, 26, "longsymfill"))), n))[:n]
+		}
+		return short.Draw(t, "sym")
+	})
 	g.node = rapid.OneOf(g.sym, g.sym, rapid.SampledFrom([]string{"_", ".", "^", ">", "<", "_catch"}))
 	g.sel = rapid.OneOf(sels...)
 	return g
@@ -167,12 +175,16 @@ func (g asmGens) program(t *rapid.T) C16Case {
 		return g.ins(t)
 	}), 0, 10).Draw(t, "body")
 	if rapid.IntRange(0, 2).Draw(t, "hasbatch") > 0 {
-		batch := rapid.SliceOfN(rapid.Custom(func(t *rapid.T) AsmLine {
+		nb := 5
+		if chancePct(t, 10, "bigbatch") {
+			nb = 80 // a long menu: the expansion runs to several hundred bytes
+		}
+		batch := genSlice(t, rapid.Custom(func(t *rapid.T) AsmLine {
 			if g.full && rapid.IntRange(0, 9).Draw(t, "filler") == 0 {
 				return genAsmFiller(t)
 			}
 			return g.batch(t)
-		}), 1, 5).Draw(t, "batch")
+		}), 1, nb, "batch")
 		c.Lines = append(c.Lines, batch...)
 	}
 	if len(c.Lines) == 0 {
@@ -454,4 +466,8 @@ var _ = registerReplay("C16", "src", checkC16)
 func TestC16(t *testing.T) {
 	runKnownExamples(t, "C16")
 	RunProp(t, "C16", "src", pick(3000, 25000), genC16, checkC16)
+	if t.Failed() {
+		return
+	}
+	runConcC16(t)
 }
